@@ -7,7 +7,7 @@
 //                  every apex returned by getApex is a corner of that cell.
 //   k_turbo_cell : for every point of the open unit cell that is not on a face of a simplex: it lies
 //                  strictly inside exactly one of the simplices the MSS table cuts the cell into
-//                  (the simplices tile the cell) - 1-D and 2-D.
+//                  (the simplices tile the cell) - 1-D, 2-D and 3-D (the six tetrahedra of S3D).
 // MeshETurbo is raw storage: only the fields these functions read are initialised.
 #include "vf.h"
 #include "Mesh/MeshETurbo.hpp"
@@ -111,7 +111,21 @@ extern "C" void k_turbo_apex()
   vf_witness();
 }
 
-#if VF_ND <= 2
+#if VF_ND == 3
+// orientation of the tetrahedron (a, b, c, d): det [b-a; c-a; d-a]
+static double orient3(const double* a, const double* b, const double* c, const double* d)
+{
+  double u[3], v[3], w[3];
+  for (int k = 0; k < 3; k++)
+  {
+    u[k] = b[k] - a[k];
+    v[k] = c[k] - a[k];
+    w[k] = d[k] - a[k];
+  }
+  return u[0] * (v[1] * w[2] - v[2] * w[1]) - u[1] * (v[0] * w[2] - v[2] * w[0]) + u[2] * (v[0] * w[1] - v[1] * w[0]);
+}
+#endif
+
 extern "C" void k_turbo_cell()
 {
   double p[VF_ND];
@@ -121,8 +135,8 @@ extern "C" void k_turbo_cell()
     p[d]     = e - floor(e); // any point of [0,1)
     vf_assume(p[d] > 0);
   }
-  const int ncas = (VF_ND == 1) ? 1 : 2;
-  const int npol = (VF_ND == 1) ? 1 : 2;
+  const int ncas = (VF_ND == 1) ? 1 : (VF_ND == 2) ? 2 : 6;
+  const int npol = (VF_ND == 2) ? 2 : 1; // polarisation exists in 2-D only (_getPolarized returns 0 otherwise)
   for (int ipol = 0; ipol < npol; ipol++)
   {
     int ninside = 0;
@@ -140,6 +154,13 @@ extern "C" void k_turbo_cell()
 #if VF_ND == 1
       double D    = v[1][0] - v[0][0];
       double o[2] = {v[1][0] - p[0], p[0] - v[0][0]};
+#elif VF_ND == 3
+      double D = orient3(v[0], v[1], v[2], v[3]);
+      double o[4];
+      o[0] = orient3(p, v[1], v[2], v[3]); // p in place of corner i: same orientation as the simplex <=> inside
+      o[1] = orient3(v[0], p, v[2], v[3]);
+      o[2] = orient3(v[0], v[1], p, v[3]);
+      o[3] = orient3(v[0], v[1], v[2], p);
 #else
       double D = (v[1][0] - v[0][0]) * (v[2][1] - v[0][1]) - (v[1][1] - v[0][1]) * (v[2][0] - v[0][0]);
       double o[3];
@@ -163,4 +184,3 @@ extern "C" void k_turbo_cell()
   }
   vf_witness();
 }
-#endif
